@@ -20,6 +20,10 @@ concurrency : between two collection points the measurements of a cycle may come
               the first measurement of a set while a second one is started (twin), Reservoir.Collect holds a reader
               inside an aggregate's collection while a measurement is started (Mid line: the measurement belongs to
               that reader's cycle k or k+1, exact again at the quiescent point k+1).  Collections only at quiescence.
+faults      : callback outcomes (a callback returns an error -- plain, or wrapping Canceled / DeadlineExceeded of its
+              OWN context -- after all, some or none of its observations: those sets are optional in that cycle,
+              everything else and the next cycle exact) and aborted collection points (cancelled / expiring Collect
+              context: no cycle of the statement, model unchanged, the next healthy cycle exact).
 extensions  : wide exponential value domain (value = sign x 2^e over +-300 octaves, tiny MaxSize: the two readers
               re-scale at different moments, every measurement ORDER explored); overlapping collections of one
               reader (second goroutine collects while the first is held in a gate callback; TOver accepts either
@@ -159,12 +163,19 @@ def plan(c, tier):
 
 
 # ---------------------------------------------------------------------------- classification
-def sig_of(direction, new, v):
+def sig_of(direction, new, v, scen=()):
     C = new["C"]
     meta = new.get("meta", {})
+    # fault history of the stream up to the failing line: an aborted collection point before it, the
+    # callback-error flavour of the failing cycle and of the cycle before it
+    cyc = [r for r in scen if r.get("ev") == "Cycle"]
+    here = scen[-1].get("cberr", "") if scen else ""
+    before = cyc[-2].get("cberr", "") if len(cyc) >= 2 and scen and scen[-1].get("ev") == "Cycle" else ""
     return {"dir": direction, "kind": C["kind"], "agg": C["agg"], "num": "float" if C["unit"] != 1 else "int",
             "async": C["kind"] in ASYNC, "nosum_kind": C["kind"] in SIGNED, "reuse": bool(meta.get("reuse")),
             "wide": bool(C.get("wide")), "overlapped": v.get("over", "no"),
+            "abort_before": any(r.get("ev") == "Abort" for r in scen), "cb_error": here or "none",
+            "after_cb_error": before or "none",
             "rd": v.get("rd"), "clause": v.get("clause")}
 
 
@@ -308,7 +319,7 @@ def run(ctx):
                     break
                 i -= 1
             scen.reverse()
-            ctx.violation(sig_of(direction, scen[0], v), replay={"scenario": scen, "viol": v})
+            ctx.violation(sig_of(direction, scen[0], v, scen), replay={"scenario": scen, "viol": v})
     ctx.extra["trace_lines_validated"] = lines_validated
 
     # ---- vacuity: the interesting regimes were reached on the real code
@@ -321,7 +332,8 @@ def run(ctx):
             "replay_wide_delta_and_cumulative_at_different_scales", "random_wide_bursts",
             "random_wide_cumulative_rescaled_between_cycles", "replay_twin_first_measurements",
             "replay_mid_collection_measurements", "random_twin_first_measurements", "random_mid_collection_measurements",
-            "random_concurrent_batches"]
+            "random_concurrent_batches", "replay_callback_error_points", "replay_aborted_collection_points",
+            "random_callback_error_points", "random_aborted_collection_points"]
     for k in need:
         if not counters.get(k):
             ctx.note_inconclusive("vacuity: counter %s is zero" % k)
